@@ -73,3 +73,131 @@ package watutil
 //@   modifies p.mWasm.NameSection.FunctionNames, p.mWasm.NameSection.LocalNames
 //@   noframe
 //@   property C04
+
+// ---------------------------------------------------------------------------------------------------
+// Index resolution (wat2wasm_helper.go): identifiers resolve to the index spaces of the binary format:
+// imports of the kind first (in import order), then the module's own definitions; the first entry with
+// the name wins; a label resolves to the innermost enclosing scope with that label.
+
+// strconv.Atoi as an uninterpreted pair (failure, value)
+//@ spec (declare-fun atoi_err (Str) Bool)
+//@ spec (declare-fun atoi_val (Str) Int)
+//@ extern strconv.Atoi
+//@   results n, err
+//@   ensures (err != nil) == atoi_err(s)
+//@   ensures err == nil ==> n == atoi_val(s)
+//@   pure
+//@   trusted
+
+// imp_cnt(P, K, o, t, j): how many of the first j imports (references P[o..], kinds K[ref]) have kind t.
+// Defined by recursion; the step is stated over two existing terms so that it creates no new ones.
+//@ spec (declare-fun imp_cnt ((Array Int Int) (Array Int Int) Int Int Int) Int)
+//@ axiom forall P (Array Int Int), K (Array Int Int), o Int, t Int {imp_cnt(P, K, o, t, 0)} :: imp_cnt(P, K, o, t, 0) == 0
+//@ axiom forall P (Array Int Int), K (Array Int Int), o Int, t Int, i Int, j Int {imp_cnt(P, K, o, t, i), imp_cnt(P, K, o, t, j)} :: i >= 0 && j == i+1 ==> imp_cnt(P, K, o, t, j) == imp_cnt(P, K, o, t, i) + ite(K[P[o+i]] == t, 1, 0)
+//@ spec nimp(m *ast.Module, t token.Token, j int) int := imp_cnt(arr(m.Imports), heap(m.Imports[0].ObjKind), off(m.Imports), int(t), j)
+//@ spec imports_ok(m *ast.Module) bool := m != nil && len(m.Imports) < (1 << 31) && (forall i int :: 0 <= i && i < len(m.Imports) ==> m.Imports[i] != nil)
+
+//@ func (*wat2wasmWorker).findLabelIndex
+//@   mode int
+//@   requires p != nil
+//@   requires !atoi_err(label) ==> 0 <= atoi_val(label) && atoi_val(label) < (1 << 32)
+//@   requires len(p.labelScope) < (1 << 31)
+//@   loop 0 invariant 0 <= i && i <= len(p.labelScope)
+//@   loop 0 invariant forall j int :: 0 <= j && j < i ==> p.labelScope[len(p.labelScope)-j-1] != label
+//@   ensures[numeric]   !atoi_err(label) ==> int(result) == atoi_val(label)
+//@   ensures[innermost] atoi_err(label) ==> int(result) < len(p.labelScope) && p.labelScope[len(p.labelScope)-int(result)-1] == label && (forall j int :: 0 <= j && j < int(result) ==> p.labelScope[len(p.labelScope)-j-1] != label)
+//@   property C04
+
+//@ func (*wat2wasmWorker).enterLabelScope
+//@   mode int
+//@   requires p != nil
+//@   ensures[push] len(p.labelScope) == old(len(p.labelScope)) + 1 && p.labelScope[len(p.labelScope)-1] == label
+//@   ensures[keep] forall j int :: 0 <= j && j < old(len(p.labelScope)) ==> p.labelScope[j] == old(p.labelScope[j])
+//@   noframe
+//@   property C04
+
+//@ func (*wat2wasmWorker).leaveLabelScope
+//@   mode int
+//@   requires p != nil && len(p.labelScope) > 0
+//@   ensures[pop]  len(p.labelScope) == old(len(p.labelScope)) - 1
+//@   ensures[keep] forall j int :: 0 <= j && j < len(p.labelScope) ==> p.labelScope[j] == old(p.labelScope[j])
+//@   noframe
+//@   safe
+//@   property C04
+
+//@ func (*wat2wasmWorker).findFuncIndex
+//@   mode int
+//@   requires p != nil && imports_ok(p.mWat) && len(p.mWat.Funcs) < (1 << 31)
+//@   requires forall i int :: 0 <= i && i < len(p.mWat.Funcs) ==> p.mWat.Funcs[i] != nil
+//@   requires !atoi_err(ident) ==> 0 <= atoi_val(ident) && atoi_val(ident) < (1 << 32)
+//@   loop 0 invariant importCount == nimp(p.mWat, token.FUNC, rangeindex+1) && 0 <= importCount && importCount <= rangeindex+1
+//@   loop 0 invariant forall i int :: 0 <= i && i <= rangeindex ==> !(p.mWat.Imports[i].ObjKind == token.FUNC && p.mWat.Imports[i].FuncName == ident)
+//@   loop 1 invariant importCount == nimp(p.mWat, token.FUNC, len(p.mWat.Imports)) && 0 <= importCount && importCount <= len(p.mWat.Imports)
+//@   loop 1 invariant forall i int :: 0 <= i && i < len(p.mWat.Imports) ==> !(p.mWat.Imports[i].ObjKind == token.FUNC && p.mWat.Imports[i].FuncName == ident)
+//@   loop 1 invariant forall i int :: 0 <= i && i <= rangeindex ==> p.mWat.Funcs[i].Name != ident
+//@   ensures[numeric] !atoi_err(ident) ==> int(result) == atoi_val(ident)
+//@   ensures[import]  atoi_err(ident) ==> (forall i int :: 0 <= i && i < len(p.mWat.Imports) && p.mWat.Imports[i].ObjKind == token.FUNC && p.mWat.Imports[i].FuncName == ident && (forall j int :: 0 <= j && j < i ==> !(p.mWat.Imports[j].ObjKind == token.FUNC && p.mWat.Imports[j].FuncName == ident)) ==> int(result) == nimp(p.mWat, token.FUNC, i))
+//@   ensures[defined] atoi_err(ident) && (forall i int :: 0 <= i && i < len(p.mWat.Imports) ==> !(p.mWat.Imports[i].ObjKind == token.FUNC && p.mWat.Imports[i].FuncName == ident)) ==> (forall f int :: 0 <= f && f < len(p.mWat.Funcs) && p.mWat.Funcs[f].Name == ident && (forall g int :: 0 <= g && g < f ==> p.mWat.Funcs[g].Name != ident) ==> int(result) == nimp(p.mWat, token.FUNC, len(p.mWat.Imports)) + f)
+//@   property C04
+
+//@ func (*wat2wasmWorker).findGlobalIndex
+//@   mode int
+//@   requires p != nil && imports_ok(p.mWat) && len(p.mWat.Globals) < (1 << 31)
+//@   requires forall i int :: 0 <= i && i < len(p.mWat.Globals) ==> p.mWat.Globals[i] != nil
+//@   requires !atoi_err(ident) ==> 0 <= atoi_val(ident) && atoi_val(ident) < (1 << 32)
+//@   loop 0 invariant importCount == nimp(p.mWat, token.GLOBAL, rangeindex+1) && 0 <= importCount && importCount <= rangeindex+1
+//@   loop 0 invariant forall i int :: 0 <= i && i <= rangeindex ==> !(p.mWat.Imports[i].ObjKind == token.GLOBAL && p.mWat.Imports[i].GlobalName == ident)
+//@   loop 1 invariant importCount == nimp(p.mWat, token.GLOBAL, len(p.mWat.Imports)) && 0 <= importCount && importCount <= len(p.mWat.Imports)
+//@   loop 1 invariant forall i int :: 0 <= i && i < len(p.mWat.Imports) ==> !(p.mWat.Imports[i].ObjKind == token.GLOBAL && p.mWat.Imports[i].GlobalName == ident)
+//@   loop 1 invariant forall i int :: 0 <= i && i <= rangeindex ==> p.mWat.Globals[i].Name != ident
+//@   ensures[numeric] !atoi_err(ident) ==> int(result) == atoi_val(ident)
+//@   ensures[import]  atoi_err(ident) ==> (forall i int :: 0 <= i && i < len(p.mWat.Imports) && p.mWat.Imports[i].ObjKind == token.GLOBAL && p.mWat.Imports[i].GlobalName == ident && (forall j int :: 0 <= j && j < i ==> !(p.mWat.Imports[j].ObjKind == token.GLOBAL && p.mWat.Imports[j].GlobalName == ident)) ==> int(result) == nimp(p.mWat, token.GLOBAL, i))
+//@   ensures[defined] atoi_err(ident) && (forall i int :: 0 <= i && i < len(p.mWat.Imports) ==> !(p.mWat.Imports[i].ObjKind == token.GLOBAL && p.mWat.Imports[i].GlobalName == ident)) ==> (forall f int :: 0 <= f && f < len(p.mWat.Globals) && p.mWat.Globals[f].Name == ident && (forall g int :: 0 <= g && g < f ==> p.mWat.Globals[g].Name != ident) ==> int(result) == nimp(p.mWat, token.GLOBAL, len(p.mWat.Imports)) + f)
+//@   property C04
+
+//@ func (*wat2wasmWorker).findFuncLocalIndex
+//@   mode int
+//@   requires fn != nil && fn.Type != nil && len(fn.Type.Params) < (1 << 30) && len(fn.Locals) < (1 << 30)
+//@   requires !atoi_err(ident) ==> 0 <= atoi_val(ident) && atoi_val(ident) < (1 << 32)
+//@   loop 0 invariant forall i int :: 0 <= i && i <= rangeindex ==> fn.Type.Params[i].Name != ident
+//@   loop 1 invariant forall i int :: 0 <= i && i < len(fn.Type.Params) ==> fn.Type.Params[i].Name != ident
+//@   loop 1 invariant forall i int :: 0 <= i && i <= rangeindex ==> fn.Locals[i].Name != ident
+//@   ensures[numeric] !atoi_err(ident) ==> int(result) == atoi_val(ident)
+//@   ensures[param]   atoi_err(ident) ==> (forall i int :: 0 <= i && i < len(fn.Type.Params) && fn.Type.Params[i].Name == ident && (forall j int :: 0 <= j && j < i ==> fn.Type.Params[j].Name != ident) ==> int(result) == i)
+//@   ensures[local]   atoi_err(ident) && (forall i int :: 0 <= i && i < len(fn.Type.Params) ==> fn.Type.Params[i].Name != ident) ==> (forall f int :: 0 <= f && f < len(fn.Locals) && fn.Locals[f].Name == ident && (forall g int :: 0 <= g && g < f ==> fn.Locals[g].Name != ident) ==> int(result) == len(fn.Type.Params) + f)
+//@   property C04
+
+//@ func (*wat2wasmWorker).findTableIndex
+//@   mode int
+//@   requires p != nil && imports_ok(p.mWat)
+//@   requires !atoi_err(ident) ==> 0 <= atoi_val(ident) && atoi_val(ident) < (1 << 32)
+//@   loop 0 invariant importCount == nimp(p.mWat, token.TABLE, rangeindex+1) && 0 <= importCount && importCount <= rangeindex+1
+//@   loop 0 invariant forall i int :: 0 <= i && i <= rangeindex ==> !(p.mWat.Imports[i].ObjKind == token.TABLE && p.mWat.Imports[i].Table.Name == ident)
+//@   ensures[numeric] !atoi_err(ident) ==> int(result) == atoi_val(ident)
+//@   ensures[import]  atoi_err(ident) ==> (forall i int :: 0 <= i && i < len(p.mWat.Imports) && p.mWat.Imports[i].ObjKind == token.TABLE && p.mWat.Imports[i].Table.Name == ident && (forall j int :: 0 <= j && j < i ==> !(p.mWat.Imports[j].ObjKind == token.TABLE && p.mWat.Imports[j].Table.Name == ident)) ==> int(result) == nimp(p.mWat, token.TABLE, i))
+//@   ensures[defined] atoi_err(ident) && (forall i int :: 0 <= i && i < len(p.mWat.Imports) ==> !(p.mWat.Imports[i].ObjKind == token.TABLE && p.mWat.Imports[i].Table.Name == ident)) ==> int(result) == nimp(p.mWat, token.TABLE, len(p.mWat.Imports)) && p.mWat.Table.Name == ident
+//@   property C04
+
+//@ func (*wat2wasmWorker).findMemoryIndex
+//@   mode int
+//@   requires p != nil && imports_ok(p.mWat)
+//@   requires !atoi_err(ident) ==> 0 <= atoi_val(ident) && atoi_val(ident) < (1 << 32)
+//@   loop 0 invariant importCount == nimp(p.mWat, token.MEMORY, rangeindex+1) && 0 <= importCount && importCount <= rangeindex+1
+//@   loop 0 invariant forall i int :: 0 <= i && i <= rangeindex ==> !(p.mWat.Imports[i].ObjKind == token.MEMORY && p.mWat.Imports[i].Memory.Name == ident)
+//@   ensures[numeric] !atoi_err(ident) ==> int(result) == atoi_val(ident)
+//@   ensures[import]  atoi_err(ident) ==> (forall i int :: 0 <= i && i < len(p.mWat.Imports) && p.mWat.Imports[i].ObjKind == token.MEMORY && p.mWat.Imports[i].Memory.Name == ident && (forall j int :: 0 <= j && j < i ==> !(p.mWat.Imports[j].ObjKind == token.MEMORY && p.mWat.Imports[j].Memory.Name == ident)) ==> int(result) == nimp(p.mWat, token.MEMORY, i))
+//@   ensures[defined] atoi_err(ident) && (forall i int :: 0 <= i && i < len(p.mWat.Imports) ==> !(p.mWat.Imports[i].ObjKind == token.MEMORY && p.mWat.Imports[i].Memory.Name == ident)) ==> int(result) == nimp(p.mWat, token.MEMORY, len(p.mWat.Imports)) && p.mWat.Memory.Name == ident
+//@   property C04
+
+// value types and alignment hints as the binary format numbers them
+//@ func (*wat2wasmWorker).buildValueType
+//@   mode int
+//@   ensures[i32] x == token.I32 ==> result == 0x7f
+//@   ensures[i64] x == token.I64 ==> result == 0x7e
+//@   ensures[f32] x == token.F32 ==> result == 0x7d
+//@   ensures[f64] x == token.F64 ==> result == 0x7c
+//@   property C04
+//@ func (*wat2wasmWorker).encodeAlign
+//@   mode int
+//@   ensures[log2] (align == 1 ==> result == 0) && (align == 2 ==> result == 1) && (align == 4 ==> result == 2) && (align == 8 ==> result == 3) && (align == 16 ==> result == 4)
+//@   property C04
